@@ -119,9 +119,13 @@ def split_same(k, b, e, kinds):
                                          for sv in ("dml_0_101v0", "dml_0_102v0")]}
 for i, order in enumerate((("c1", "c2"), ("c2", "c1"))):
     for tgt in (c02, c03):
-        tgt.append({"plan": "d-split-same-name-%d" % i, "params": {"tt": 1, "catalog": CAT_SAME2}, "steps": _starts(order) + [split_same(1, 10, 19, ["ins"])]})
+        # the packs are handled one after the other (no race) while the consumer of the output channel is busy: what was
+        # emitted first is read only after the second pack has been stamped
+        tgt.append({"plan": "d-split-same-name-%d" % i, "params": {"tt": 1, "catalog": CAT_SAME2},
+                    "steps": _starts(order) + [{"op": "holdouts"}, split_same(1, 10, 19, ["ins"]), run("dml_0_101v0"), run("dml_0_102v0"), {"op": "drainouts"}]})
         tgt.append({"plan": "d-split-same-name-run-%d" % i, "params": {"tt": 1, "catalog": CAT_SAME2},
-                    "steps": _starts(order) + [split_same(1, 10, 19, ["ins", "del"]), run("dml_0_101v0"), run("dml_0_102v0"), split_same(2, 20, 29, ["ins"])]})
+                    "steps": _starts(order) + [split_same(1, 10, 19, ["ins", "del"]), run("dml_0_101v0"), run("dml_0_102v0"), {"op": "holdouts"},
+                                               split_same(2, 20, 29, ["ins"]), run("dml_0_102v0"), run("dml_0_101v0"), {"op": "drainouts"}]})
 
 # end-to-end resume plans (driver ckpt, acceptor Ckpt_Trace PROP=C03) are kept as they are in C03.jsonl
 _c03file = os.path.join(os.path.dirname(os.path.abspath(__file__)), "C03.jsonl")
